@@ -299,6 +299,7 @@ class Check:
         for c in new_fail[:5]:
             body = {"property": self.pid, "kind": "failing-input", "seed": self.seed, "tier": self.tier}
             body.update(c)
+            body["broken_obligations"] = [o["name"] for o in self.obligations if not o["ok"]]
             violations.append((self.write_replay(body), False))
         broken = [o for o in self.obligations if not o["ok"]]
         if not new_fail:
